@@ -31,11 +31,12 @@ open XmppModel.CorrAttrs
 def scanI : List Attr → Nat → Option (Nat × Nat) → Bool → Option (Nat × Nat)
   | [], _, i, _ => i
   | a :: as, n, i, t =>
-    if a.space ≠ .none then scanI as (n + 1) i t
-    else
-      let i' := if a.loc = .id then some (n, a.val) else i
-      let t' := t || decide (a.loc = .type)
-      if i'.isSome && t' then i' else scanI as (n + 1) i' t'
+    if a.space ≠ .none then scanI as (n + 1) i t                 -- `continue`
+    else if a.loc = .id then                                      -- `case "id"`, then the `break` test
+      (if t then some (n, a.val) else scanI as (n + 1) (some (n, a.val)) t)
+    else if a.loc = .type then                                    -- `case "type"`, then the `break` test
+      (if i.isSome then i else scanI as (n + 1) i true)
+    else (if i.isSome && t then i else scanI as (n + 1) i t)      -- any other attribute: only the `break` test
 
 def idOf (attrs : List Attr) : Option (Nat × Nat) := scanI attrs 0 none false
 
